@@ -137,11 +137,17 @@ def check_case(case):
     if form == "time":  # with TIMEZONE: instants
         z = vtz.oracle_tz(tzname)
         if (got.hour, got.minute, got.second) != (h, mi, 0):
-            problems.append("time of day not preserved")
+            return _fail("time-only:tz:time-of-day-not-preserved", desc + " -> %r: the clock time written in the string is not the result's" % (got,),
+                         (form, pref, tzname, "tod"), cls)
+        if any(not vtz.is_unambiguous(z, refday.replace(hour=h, minute=mi) + dt.timedelta(days=k)) for k in (-1, 0, 1)):
+            # the clock time is skipped or repeated by a DST change on one of the candidate days: "not after / not before /
+            # nearest" has no single reading there; only the time of day (checked above) is asserted
+            return {"ok": True, "skip": "clock time ambiguous or non-existent in TIMEZONE around the reference day (time of day checked)",
+                    "cls": cls + ["time:dst-gap-or-fold"]}
         try:
             inst = vtz.localize(z, got.replace(tzinfo=None)).astimezone(dt.timezone.utc).replace(tzinfo=None)
         except Exception:
-            return {"ok": True, "skip": "result wall time ambiguous/non-existent in TIMEZONE", "cls": cls}
+            return {"ok": True, "skip": "result wall time ambiguous/non-existent in TIMEZONE (only the time of day was checked)", "cls": cls + ["time:dst-gap-or-fold"]}
         off = inst - got.replace(tzinfo=None)
         localdate_differs = (ref - off).date() != ref.date()
         if localdate_differs:
@@ -150,23 +156,24 @@ def check_case(case):
             problems.append("result instant after the reference")
         if pref == "future" and inst < ref:
             problems.append("result instant before the reference")
-        if pref in ("past", "future") and abs(inst - ref) >= dt.timedelta(days=1):
-            problems.append("not the nearest occurrence (>= 24 h away)")
+        # the nearest occurrence of HH:MM (in TIMEZONE) not after / not before the reference instant, found by trying the
+        # neighbouring days (days are 23 or 25 hours long around a DST change, so "within 24 h" would be the wrong test)
+        ideal = None
+        for k in range(-2, 3):
+            wall = refday.replace(hour=h, minute=mi) + dt.timedelta(days=k)
+            if not vtz.is_unambiguous(z, wall):
+                continue
+            i2 = vtz.localize(z, wall).astimezone(dt.timezone.utc).replace(tzinfo=None)
+            if pref == "past" and i2 <= ref and (ideal is None or i2 > ideal[0]):
+                ideal = (i2, wall)
+            if pref == "future" and i2 >= ref and (ideal is None or i2 < ideal[0]):
+                ideal = (i2, wall)
+        if pref in ("past", "future") and ideal is not None and inst != ideal[0]:
+            problems.append("not the nearest occurrence (nearest is %s)" % ideal[1])
         if pref == "current_period" and got.date() != ref.date() and got.date() != (ref - off).date():
             problems.append("not on the reference day")
         key = (form, pref, tzname, localdate_differs)
         if problems:
-            # ideal answer: nearest occurrence of HH:MM (in TIMEZONE) not after / not before the reference instant
-            ideal = None
-            for k in range(-2, 3):
-                wall = refday.replace(hour=h, minute=mi) + dt.timedelta(days=k)
-                if not vtz.is_unambiguous(z, wall):
-                    continue
-                i2 = vtz.localize(z, wall).astimezone(dt.timezone.utc).replace(tzinfo=None)
-                if pref == "past" and i2 <= ref and (ideal is None or i2 > ideal[0]):
-                    ideal = (i2, wall)
-                if pref == "future" and i2 >= ref and (ideal is None or i2 < ideal[0]):
-                    ideal = (i2, wall)
             if ideal is not None and (ideal[1].year, ideal[1].month) != (ref.year, ref.month):
                 b = "time-only:cross-month"
                 cls.append("cross-month")
@@ -234,6 +241,13 @@ def cases(draw):
         if draw(st.integers(0, 3)) == 0:
             c["tz"] = draw(st.sampled_from(["America/New_York", "Europe/Paris", "Asia/Kolkata", "UTC", "+05:30", "-0800",
                                             "Pacific/Kiritimati", "UTC-12:00", "Asia/Tokyo"]))
+            if draw(st.booleans()) and c["tz"] in ("America/New_York", "Europe/Paris"):
+                # around a DST transition of that zone: clock times in the skipped or repeated hour
+                import pytz
+                tt = [t for t in pytz.timezone(c["tz"])._utc_transition_times if 1971 <= t.year <= 2036]
+                t = tt[draw(st.integers(0, len(tt) - 1))] + dt.timedelta(hours=draw(st.integers(-20, 20)))
+                c["ref"] = [t.year, t.month, t.day, t.hour, draw(st.sampled_from([0, 30])), 0, 0]
+                c["hm"] = [draw(st.sampled_from([0, 1, 2, 3])), draw(st.sampled_from([0, 30, 59]))]
     else:
         m = draw(st.one_of(st.integers(1, 12), st.just(ref[1]), st.just(ref[1] % 12 + 1)))
         c["m"] = m
